@@ -105,8 +105,24 @@ func readAllItems(o ropts, data []byte) []nextItem {
 		}
 		return items
 	}
+	// every second stream is read the way a pairing consumer does it: a record is looked at only AFTER the following Next has
+	// returned (a response kept until its revisit has been seen); a record belongs to whoever received it, whatever the
+	// reader does next
+	late := len(data)%2 == 1
+	var heldRec gowarc.WarcRecord
+	heldIdx := -1
+	settle := func() {
+		if heldRec != nil {
+			_, block := readAllBlock(heldRec)
+			bl := unhxOrEmpty(block)
+			items[heldIdx].sum = fmt.Sprintf("%d,%d,%d,%d", heldRec.Type(), hdrSum(gowarc.VerifPairs(heldRec.WarcHeader())), len(bl), cksum(bl))
+			_ = heldRec.Close()
+			heldRec, heldIdx = nil, -1
+		}
+	}
 	for i := 0; i < 200; i++ {
 		rec, off, val, err := rd.Next()
+		settle()
 		fnd := classifyAll(val)
 		vals = append(vals, val)
 		if err != nil {
@@ -120,12 +136,18 @@ func readAllItems(o ropts, data []byte) []nextItem {
 			items = append(items, nextItem{off: off, err: "nil-record"})
 			return finish()
 		}
+		if late {
+			items = append(items, nextItem{off: off, fnd: fnd, clean: len(fnd) == 0})
+			heldRec, heldIdx = rec, len(items)-1
+			continue
+		}
 		_, block := readAllBlock(rec)
 		bl := unhxOrEmpty(block)
 		items = append(items, nextItem{off: off, fnd: fnd, clean: len(fnd) == 0,
 			sum: fmt.Sprintf("%d,%d,%d,%d", rec.Type(), hdrSum(gowarc.VerifPairs(rec.WarcHeader())), len(bl), cksum(bl))})
 		_ = rec.Close()
 	}
+	settle()
 	items = append(items, nextItem{err: "endless"})
 	return finish()
 }
